@@ -182,52 +182,48 @@ def fmt02 (cost : Int) : Bytes :=
   if 0 ≤ cost ∧ cost < 100 then [UInt8.ofNat (48 + cost.toNat / 10), UInt8.ofNat (48 + cost.toNat % 10)]
   else (if cost < 0 then "-" ++ toString cost.natAbs else toString cost.natAbs).toUTF8.data.toList
 
-/-- `(*hashed).Hash()`: the 60-byte array, `copy`s truncating at its end, `arr[:n]` -/
+/-- `copy` into a zeroed window of `n` bytes: truncate or zero-fill -/
+def pad (n : Nat) (l : Bytes) : Bytes := (l ++ zeros n).take n
+
+/-- `(*hashed).Hash()`: `$`, major, minor unless 0, `$`, two cost characters, `$`, then the 22-byte salt
+    window and the 31-byte hash window of the 60-byte array (`copy` truncates a longer hash and leaves
+    zeros after a shorter one; `p.salt` always has 22 bytes, from `newFromHash` or `base64Encode(16 bytes)`) -/
 def hashString (p : Hashed) : Bytes :=
-  let head : Bytes := [36, p.major] ++ (if p.minor != 0 then [p.minor] else []) ++ [36]
-  let arr : Bytes := zeros 60
-  let put (arr : Bytes) (n : Nat) (src : Bytes) : Bytes :=
-    let k := min src.length (arr.length - n)
-    arr.take n ++ src.take k ++ arr.drop (n + k)
-  let arr := put arr 0 head
-  let n := head.length
-  let arr := put arr n (fmt02 p.cost)
-  let n := n + 2
-  let arr := put arr n [36]
-  let n := n + 1
-  let arr := put arr n p.salt
-  let n := n + 22
-  let arr := put arr n p.hash
-  let n := n + 31
-  arr.take n
+  [36, p.major] ++ (if p.minor != 0 then [p.minor] else []) ++ [36] ++ pad 2 (fmt02 p.cost) ++ [36]
+    ++ pad 22 p.salt ++ pad 31 p.hash
 
 /-! ## the hash function -/
 
-def magic : Bytes := "OrpheanBeholderScryDoubt".toUTF8.data.toList
+/-- `magicCipherData` = "OrpheanBeholderScryDoubt" -/
+def magic : Bytes := [0x4f, 0x72, 0x70, 0x68, 0x65, 0x61, 0x6e, 0x42, 0x65, 0x68, 0x6f, 0x6c,
+  0x64, 0x65, 0x72, 0x53, 0x63, 0x72, 0x79, 0x44, 0x6f, 0x75, 0x62, 0x74]
 
 def iter {α : Type} (f : α → α) : Nat → α → α
   | 0, a => a
   | n+1, a => iter f n (f a)
 
+/-- `expensiveBlowfishSetup` after the salt is decoded: NewSaltedCipher, then 2^cost × (ExpandKey key; ExpandKey salt) -/
+def setupCore (ckey csalt : Bytes) (cost : Nat) : Res Blowfish.Box :=
+  match Blowfish.newSaltedCipher ckey csalt with
+  | none => .err .keysize
+  | some c =>
+    let ka := ckey.toArray
+    let sa := csalt.toArray
+    -- `blowfish.ExpandKey(csalt, c)` indexes csalt[0]: an empty csalt would panic (NewSaltedCipher
+    -- with an empty salt succeeds for short keys), so the case is explicit; `Props`: unreachable
+    if csalt.isEmpty then .panic
+    else .ok (iter (fun c => Blowfish.expandKey sa (Blowfish.expandKey ka c)) (2 ^ cost) c)
+
 /-- `expensiveBlowfishSetup` -/
 def setup (key : Bytes) (cost : Nat) (salt : Bytes) : Res Blowfish.Box :=
   match base64Decode salt with
   | none => .err .salt
-  | some csalt =>
-    let ckey := key ++ [0]
-    match Blowfish.newSaltedCipher ckey csalt with
-    | none => .err .keysize
-    | some c =>
-      let ka := ckey.toArray
-      let sa := csalt.toArray
-      -- `blowfish.ExpandKey(csalt, c)` indexes csalt[0]: an empty csalt would panic; NewSaltedCipher
-      -- with an empty salt succeeds for short keys, so keep the case explicit
-      if csalt.isEmpty then .panic
-      else .ok (iter (fun c => Blowfish.expandKey sa (Blowfish.expandKey ka c)) (2 ^ cost) c)
+  | some csalt => setupCore (key ++ [0]) csalt cost
 
 /-- 64 × ECB-encrypt each of the three 8-byte blocks of the magic string -/
 def encMagic (c : Blowfish.Box) : Bytes :=
-  ((chunks 8 magic).map (iter (Blowfish.encrypt c) 64)).flatten
+  iter (Blowfish.encrypt c) 64 (magic.take 8) ++ iter (Blowfish.encrypt c) 64 ((magic.drop 8).take 8)
+    ++ iter (Blowfish.encrypt c) 64 (magic.drop 16)
 
 /-- `bcrypt(password, cost, salt)`: 31 base64 characters -/
 def bcrypt (password : Bytes) (cost : Nat) (salt : Bytes) : Res Bytes := do
